@@ -439,23 +439,56 @@ func c17prepare(src, tname string, table map[string][]string, env interface{}) (
 	return cc, ""
 }
 
-// firstUnrewritten finds a BinaryNode left in the patched tree although its operand types fit a candidate.
-func firstUnrewritten(n ast.Node, table map[string][]string, at string) string {
-	if b, ok := n.(*ast.BinaryNode); ok {
-		if fn, _ := c17resolve(table, b.Operator, b.Left.Type(), b.Right.Type()); fn != "" {
+// firstUnrewritten names the slot of the highest sub-tree in which occurrences that fit a candidate were
+// left as operators and none was rewritten (the slot the patcher did not get into).
+func firstUnrewritten(root ast.Node, table map[string][]string, at string) string {
+	isFn := map[string]bool{}
+	for _, fns := range table {
+		for _, fn := range fns {
+			isFn[fn] = true
+		}
+	}
+	var count func(n ast.Node) (should, done int)
+	count = func(n ast.Node) (should, done int) {
+		switch x := n.(type) {
+		case *ast.BinaryNode:
+			if fn, _ := c17resolve(table, x.Operator, x.Left.Type(), x.Right.Type()); fn != "" {
+				should++
+			}
+		case *ast.FunctionNode:
+			if isFn[x.Name] {
+				done++
+			}
+		}
+		for _, s := range reflSlots(n) {
+			a, b := count(s.get())
+			should += a
+			done += b
+		}
+		return
+	}
+	var find func(n ast.Node, at string) string
+	find = func(n ast.Node, at string) string {
+		should, done := count(n)
+		if should == 0 {
+			return ""
+		}
+		if done == 0 {
 			return at
 		}
-	}
-	for _, s := range reflSlots(n) {
-		if w := firstUnrewritten(s.get(), table, kindOfNode(n)+"."+s.fname); w != "" {
-			return w
+		for _, s := range reflSlots(n) {
+			if w := find(s.get(), kindOfNode(n)+"."+s.fname); w != "" {
+				return w
+			}
 		}
+		return at
 	}
-	return ""
+	return find(root, at)
 }
 
 func runC17(c *Ctx) {
 	r := c.R
+	loadReplayKey(c)
 	r.Rule = "typed expressions generated in operator form and explicit-call form (Vec/Dur structs and named types, interface and interface{} parameters, []Vec operands so that overloaded results are sliced/indexed) x 7 overload tables (one/several operators and candidates) x 14+7 positions (root, array/slice/index operands, map values, branches, closure bodies, function and method arguments) x struct env (methods) and map env (functions) x optimizer on/off; PatchOperators output vs Lean model and vs Lean explicit-call form on the type-checked trees; every binary operator overloaded once; unfitting operand types vs built-in; ill-shaped and missing functions; non-trivial = at least one overloaded occurrence; distinct by (table, source, env)"
 	structEnv := c17StructEnv(0)
 
